@@ -30,7 +30,7 @@ const (
 	c12NAddrs       = 64
 	c12EnumThorough = 840
 	c12SampThorough = 300
-	c12Quick        = 1500
+	c12Quick        = 1000
 )
 
 var c12Mechanisms = []string{c12Dead, c12NetUn, c12Excl, c12Desel, c12NoEP, c12Gone, c12Mixed}
